@@ -44,7 +44,7 @@ def run(tier, seed, replay=None, pid="C04"):
         raise vlib.Infra("%s harness: %s" % (pid, rep.get("extra")))
     vlib.log("[replay] %d behaviours, %d runs, %d inconclusive, %d divergences, %s" % (rep["evaluations"], rep["extra"].get("behaviour_runs", 0),
                                                                                     rep["inconclusive"], len(rep["divergences"]), rep.get("extra")))
-    if rep["evaluations"] and rep["inconclusive"] > 0.1 * rep["evaluations"]:
+    if rep["evaluations"] and rep["inconclusive"] > 0.1 * rep["evaluations"] and not rep["divergences"]:
         raise vlib.Infra("too many inconclusive replays")
     ck.add_report(rep)
     if pid == "C04":
